@@ -245,7 +245,17 @@ def whole_programs(draw, tier, first_failures=False, size=None):
         if r < 17:
             return {'op': 'await', 'e': cond()}
         if r < 19:
-            return {'op': 'lock', 'i': draw(st.integers(0, 1)), 'body': body(depth + 1, siblings, chain, 2)}
+            li = draw(st.integers(0, 1))
+            if draw(st.integers(0, 2)) == 0:
+                # the holder runs a short-lived scope whose child asks for the very same lock and is closed
+                # by the holder when the scope ends
+                cn = nm.act()
+                targets.append(cn)
+                return {'op': 'lock', 'i': li, 'body': [
+                    {'op': 'until', 'name': nm.blk(), 'notif': ['delay', draw(st.sampled_from([0.5, 1]))], 'catch': True,
+                     'children': [{'name': cn, 'steps': [{'op': 'lock', 'i': li, 'body': [sl()]}]}],
+                     'body': [{'op': 'sleep', 'd': draw(st.sampled_from([0, 0.5, 1, 2]))}]}, sl()]}
+            return {'op': 'lock', 'i': li, 'body': body(depth + 1, siblings, chain, 2)}
         if r < 20:
             return {'op': 'avail', 'i': draw(st.integers(0, 1))}
         if r < 22:
